@@ -240,7 +240,11 @@ class HSym(HBase):
         if isinstance(cond, SymBool):
             e = cond.e
         elif isinstance(cond, (bool, np.bool_)):
-            e = z3.BoolVal(bool(cond))
+            if bool(cond):
+                # a concrete fact on this path: nothing to decide (counted, not queried)
+                self.n_proved_inline += 1
+                return None
+            e = z3.BoolVal(False)
         else:
             raise HarnessError(f"{name}: claim is not boolean: {type(cond)}")
         return self._mk(name, "bool", e, **kw)
@@ -473,6 +477,7 @@ def explore_case(harness, case, seed, max_paths=2000, feasibility="linear", time
     for k, (lname, lclaim, lpc, lpa) in enumerate(CTX.lemmas):
         H.obligations.append(Obligation(case=case.name, name=f"lemma:{lname}#{k}", kind="lemma", claim=lclaim, pc=lpc, path_assume=lpa,
                                         path_id=-1, choices={}, slice=False, timeout=H.default_timeout, lu_log=[]))
+    run.inline_true = H.n_proved_inline
     run.obligations = H.obligations
     if getattr(harness, "PHASE_AXIOMS", False):
         CTX.assume.extend(C.phase_axioms())
@@ -954,6 +959,7 @@ def run_harness(harness, tier="quick", seed=0, replay=None, verbose=True):
             samples=samples or [dict(note="no obligations")],
             obligations=len(all_obls),
             discharged=discharged,
+            concrete_claims_true_on_their_path=sum(getattr(r, "inline_true", 0) for r in runs),
             sat_replayed=len(violations) + len(known_hits),
             known_findings=sorted(seen_known),
             inconclusive=len(inconclusive) + len(unreproduced),
